@@ -613,3 +613,22 @@ package lua
 //@ modifies L.reg.array, L.reg.top, L.reg.array[*], type pm.MatchData.captures, elems(uint32), type pm.scanner.*, type pm.scannerState.*
 //@ loop 1 invariant Inv_gfn(L) && L.reg == old(L.reg) && argsKept(L) && i >= 2 && i % 2 == 0 && i <= len(md.captures) && len(md.captures) % 2 == 0 && len(md.captures) >= 4 && md != nil && Inv_md(md) && top(L) == old(top(L)) + (i - 2) / 2 && cap(L.reg.array) >= old(cap(L.reg.array)) && arrSameOrFresh(L.reg) && len(str) == len(str(arg(L, 1)))
 //@ loop 1 invariant forall k int :: 0 <= k && k + 1 < len(md.captures) && k % 2 == 0 && md.captures[k] % 2 == 0 ==> md.captures[k] / 2 <= md.captures[k+1] / 2 && md.captures[k+1] / 2 <= len(str)
+
+// ---------------------------------------------------------------------------
+// flagScanner (utils.go): the %-escape scanner behind gsub replacement strings (and strftime)
+// ---------------------------------------------------------------------------
+
+//@ define Inv_fs(fs *flagScanner) bool = fs != nil && fs.Length == len(fs.str) && 0 <= fs.Pos && fs.Pos <= fs.Length && offset(fs.buf) == 0
+
+// Next: at the end it reports eos; a doubled flag character ("%%") ANYWHERE, including at the very end of the string,
+// contributes exactly one flag byte to the output and is skipped; any other byte is returned as it is.
+//@ func (*flagScanner).Next [C14]
+//@ requires Inv_fs(fs)
+//@ noraise
+//@ ensures  Inv_fs(fs) && fs.str == old(fs.str) && fs.flag == old(fs.flag) && fs.start == old(fs.start) && fs.end == old(fs.end) && len(fs.buf) >= old(len(fs.buf)) && fs.Pos >= old(fs.Pos)
+//@ ensures  "prefix-kept": forall k int :: 0 <= k && k < old(len(fs.buf)) ==> fs.buf[k] == old(fs.buf[k])
+//@ ensures  "eos": old(fs.Pos == fs.Length) ==> result1 && fs.Pos == old(fs.Pos)
+//@ ensures  "doubled-flag": old(fs.Pos + 1 < fs.Length && sbyte(fs.str, fs.Pos) == fs.flag && sbyte(fs.str, fs.Pos + 1) == fs.flag) ==> fs.Pos >= old(fs.Pos) + 2 && len(fs.buf) > old(len(fs.buf)) && fs.buf[old(len(fs.buf))] == old(fs.flag)
+//@ ensures  "plain": old(fs.Pos < fs.Length && sbyte(fs.str, fs.Pos) != fs.flag) ==> !result1 && result0 == old(sbyte(fs.str, fs.Pos)) && fs.Pos == old(fs.Pos) + 1 && len(fs.buf) == old(len(fs.buf)) && !fs.ChangeFlag && fs.HasFlag == old(fs.HasFlag)
+//@ ensures  "flag-start": old(fs.Pos + 1 < fs.Length && sbyte(fs.str, fs.Pos) == fs.flag && sbyte(fs.str, fs.Pos + 1) != fs.flag) ==> !result1 && fs.ChangeFlag && fs.HasFlag && fs.Pos == old(fs.Pos) + 1
+//@ modifies fs.*, fs.buf[*]
